@@ -76,6 +76,7 @@ fn dispatch(line: &str) -> PResult<String> {
         "enc" => by_fam!(t, op_enc),
         "rt" => by_fam!(t, op_rt),
         "dec" => by_fam!(t, op_dec),
+        "hdrdec" => by_fam!(t, op_hdrdec),
         "sched" => by_fam!(t, op_sched),
         "schedi" => by_fam!(t, op_schedi),
         "stream" => by_fam!(t, op_stream),
@@ -136,22 +137,38 @@ fn csv(out: &mut String, items: &[String]) {
 
 // ---------------------------------------------------------------- 4.1 Pid
 
+/// The number a Pid stands for, checked against the value built from that number: an identifier that
+/// reports n through value() but is not ==, cmp-equal and hash-equal to Pid::try_from(n) yields 0.
+fn pid_num(q: Pid, full: bool) -> u16 {
+    let v = q.value();
+    match Pid::try_from(v) {
+        Ok(c) if c == q => {
+            if full && (c.cmp(&q) != Ordering::Equal || hash_of(&c) != hash_of(&q) || format!("{:?}", c) != format!("{:?}", q)) {
+                0
+            } else {
+                v
+            }
+        }
+        _ => 0,
+    }
+}
+
 fn op_pid_arith(op: &str, t: &mut Toks) -> PResult<String> {
     let p = Pid::try_from(t.u16()?).map_err(|_| "pid-zero".to_owned())?;
     let u = t.u16()?;
     t.done()?;
     let r = guard(|| match op {
-        "pid_add" => (p + u).value(),
-        "pid_sub" => (p - u).value(),
+        "pid_add" => pid_num(p + u, true),
+        "pid_sub" => pid_num(p - u, true),
         "pid_addassign" => {
             let mut q = p;
             q += u;
-            q.value()
+            pid_num(q, true)
         }
         _ => {
             let mut q = p;
             q -= u;
-            q.value()
+            pid_num(q, true)
         }
     });
     let mut out = String::new();
@@ -262,20 +279,20 @@ fn op_pid_range(t: &mut Toks) -> PResult<String> {
             let mut lb = prefix;
             lb.num(u64::from(u));
             lb.byte(b' ');
-            pid_cell(&mut lb, || (pid + u).value());
+            pid_cell(&mut lb, || pid_num(pid + u, false));
             lb.byte(b' ');
-            pid_cell(&mut lb, || (pid - u).value());
+            pid_cell(&mut lb, || pid_num(pid - u, false));
             lb.byte(b' ');
             pid_cell(&mut lb, || {
                 let mut q = pid;
                 q += u;
-                q.value()
+                pid_num(q, false)
             });
             lb.byte(b' ');
             pid_cell(&mut lb, || {
                 let mut q = pid;
                 q -= u;
-                q.value()
+                pid_num(q, false)
             });
             lb.byte(b'\n');
             fnv(&mut h, lb.as_slice());
@@ -637,6 +654,40 @@ fn op_tfcmp(t: &mut Toks) -> PResult<String> {
     let ha = hash_of(&a) == hash_of::<String>(&a.to_string());
     let hb = hash_of(&b) == hash_of::<String>(&b.to_string());
     tok::boolean(&mut out, ha && hb);
+    // the derived-looking relations: != , partial_cmp and the four comparison operators
+    out.push_str(";ne=");
+    tok::boolean(&mut out, a != b);
+    out.push_str(";pcmp=");
+    out.push_str(match a.partial_cmp(&b) {
+        Some(Ordering::Less) => "lt",
+        Some(Ordering::Equal) => "eq",
+        Some(Ordering::Greater) => "gt",
+        None => "none",
+    });
+    out.push_str(";rel=");
+    tok::boolean(&mut out, a < b);
+    tok::boolean(&mut out, a <= b);
+    tok::boolean(&mut out, a > b);
+    tok::boolean(&mut out, a >= b);
+    // a value overwritten in place (clone_from) must be indistinguishable from the source
+    out.push_str(";cf=");
+    let r = guard(|| {
+        let mut c = a.clone();
+        c.clone_from(&b);
+        let mut o = String::new();
+        tok::boolean(&mut o, c == b);
+        tok::boolean(&mut o, c.to_string() == b.to_string());
+        tok::boolean(&mut o, c.is_shared());
+        o.push(',');
+        opthex(&mut o, guard(|| c.shared_group_name().map(str::to_owned)));
+        o.push(',');
+        opthex(&mut o, guard(|| c.shared_filter().map(str::to_owned)));
+        o
+    });
+    match r {
+        Ok(o) => out.push_str(&o),
+        Err(_) => out.push_str("PANIC"),
+    }
     Ok(out)
 }
 
@@ -966,6 +1017,20 @@ fn inv_re_fields<F: Fam>(out: &mut String, x: char, r: &Res<F::Packet, F::Err>) 
         }
         _ => out.push('-'),
     }
+}
+
+/// `hdrdec FAM HEX`: the bare fixed-header decoders, blocking and async, on the same bytes
+fn op_hdrdec<F: Fam>(t: &mut Toks) -> PResult<String> {
+    let bytes = t.hex()?;
+    t.done()?;
+    let mut out = String::from("block=");
+    let r = guard(|| F::header_decode(&bytes));
+    res_simple(&mut out, &r, |o, h| cm::print_hdr(o, h), |o, e| F::print_err(o, e));
+    out.push_str(";async=");
+    let mut rd: &[u8] = &bytes;
+    let r = guard(|| block_on(F::header_decode_async(&mut rd)));
+    res_simple(&mut out, &r, |o, h| cm::print_hdr(o, h), |o, e| F::print_err(o, e));
+    Ok(out)
 }
 
 fn op_dec<F: Fam>(t: &mut Toks) -> PResult<String> {
